@@ -12,7 +12,7 @@ import numpy
 
 from common import (Stream, budget, enc_op, canon_op_json, to_gq, rng_for)
 from c04 import (canon_nz, is_canonical_qubit, rand_coeff, call, rand_fermion_op, rand_majorana_op, modes_of,
-                 rand_hermitian_iop, flat)
+                 rand_hermitian_iop, flat, noncanonical, elementwise_hermitian)
 
 TRUSTED = []
 ASSUMPTIONS = [
@@ -345,7 +345,9 @@ def stream_random(ctx):
 def stream_interaction(ctx):
     of = ctx.of
     st = Stream('interaction-operator', 'seeded random Hermitian InteractionOperators (real and complex, dense and '
-                'sparse, N <= 4 quick / 5 thorough) through bravyi_kitaev with n_qubits in {None, N, N+1, N+3}; Model '
+                'sparse, N <= 4 quick / 5 thorough; 40% in NON-canonical storage: weight moved between the antisymmetry-'
+                'related entries T[pqrs] / -T[qprs] / -T[pqsr] / T[qpsr], arbitrary values on p = q / r = s entries, so that '
+                'only the denoted operator is Hermitian) through bravyi_kitaev with n_qubits in {None, N, N+1, N+3}; Model '
                 'compared exactly; Spec oracle against the tensor formula written out term by term under the encoding '
                 'on n_qubits; compared exactly with bravyi_kitaev(get_fermion_operator(.), n_qubits); plus sparse tensors with '
                 'a guaranteed four-distinct-mode quartic entry, N in {4,5,6} (thorough also 9,10), n_qubits in N..N+3; '
@@ -360,6 +362,12 @@ def stream_interaction(ctx):
         cplx = rng.random() < 0.6
         density = rng.choice([0.08, 0.3, 1.0]) if N >= 3 else rng.choice([0.5, 1.0])
         iop = rand_hermitian_iop(rng, of, N, cplx, density)
+        storage = 'elementwise-hermitian'
+        if N >= 2 and k % 5 in (1, 3):
+            # the same Hermitian operator in non-canonical storage (weight moved between antisymmetry-related entries)
+            noncanonical(rng, iop.two_body_tensor, cplx)
+            storage = 'elementwise-hermitian' if elementwise_hermitian(iop.two_body_tensor) else 'non-canonical'
+        st.count('iop:storage:' + storage)
         nq = rng.choice([None, N, N + 1, N + 3])
         one, two = flat(iop.one_body_tensor), flat(iop.two_body_tensor)
         const = to_gq(iop.constant)
@@ -425,6 +433,9 @@ def stream_interaction(ctx):
             v = dy(rng, cplx)
             one[a, c] = v
             one[c, a] = numpy.conj(v)
+        if k % 5 in (1, 3):
+            noncanonical(rng, two, cplx)
+        st.count('quartic:storage:' + ('elementwise-hermitian' if elementwise_hermitian(two) else 'non-canonical'))
         iop = of.InteractionOperator(rng.choice([0.0, 0.5]), one, two)
         nq = N + rng.choice([0, 1, 2, 3, 1, 2])
         # the Spec operator, from the tensor entries directly
@@ -505,7 +516,8 @@ def replay(ctx, payload):
 def stream_hardening(ctx):
     import copy
     from c04 import (soft, twice, mutate_operator, herm_tensors, cast, ARRAY_KINDS, SCALARS, band_val, arrays_equal,
-                     sparse_spec_op, rand_coeff as rc)
+                     sparse_spec_op, rand_coeff as rc, is_complex_kind, COMPLEX_KINDS, QUARTIC_STORAGE, quartic_tensors,
+                     elementwise_hermitian)
     of = ctx.of
     bk, bkt, fw = mods(ctx)
     BK = of.transforms.bravyi_kitaev
@@ -513,12 +525,16 @@ def stream_hardening(ctx):
     st = Stream('hardening', '(S) every path is called twice around an in-place modification of its first result (operators, '
                 'index sets, SRL lists, tree set lists), arguments are snapshotted before / after (including the tensors '
                 'inside InteractionOperators), operators / tensors edited in place are re-transformed and compared with a '
-                'freshly built equal object; (T) tensors as float64 / complex128 / complex64 / float32 / int64 / int32 / '
-                'Fortran-ordered arrays, SRL coefficients as Python int / float / complex / bool and numpy scalars, numpy '
+                'freshly built equal object; (T) tensors as float64 / complex128 / complex64 / clongdouble / longdouble / '
+                'float32 / int64 / int32 / Fortran-ordered arrays, every complex dtype with a guaranteed four-distinct-mode '
+                'entry, a number-excitation entry and a hopping with non-zero imaginary parts (N = 4..6), SRL coefficients as Python int / float / complex / bool and numpy scalars, numpy '
                 'scalars in .terms (a type this tree rejects is excluded and counted, never an alarm); (B) dyadic entries '
                 'of magnitude 2e-6 .. 9e-5 next to O(1) ones in InteractionOperators (one-body, coulomb, number-excitation, '
                 'quartic) and FermionOperators, n_qubits 9 .. 20 and > 256, indices >= 257; (A) complex constants, purely '
-                'imaginary entries, non-Hermitian tensors (Model comparison only), both operand orders.  Compared exactly '
+                'imaginary entries, non-Hermitian tensors (Model comparison only), Hermitian operators in NON-canonical '
+                'storage (Hermitian partner stored on an antisymmetry-related entry with the opposite sign, weight split '
+                'between T[pqrs] / -T[qprs] / -T[pqsr] / T[qpsr], junk on p = q / r = s entries; oracle = the operator the '
+                'stored tensor denotes), both operand orders.  Compared exactly '
                 'with the Model and, where admissible, with the Spec oracle; distinct = distinct (check, input)')
     b = Batch(ctx, st)
     rng = rng_for(ctx.seed, 'c05-hardening')
@@ -658,7 +674,7 @@ def stream_hardening(ctx):
     for rep in range(reps):
         for kind in ARRAY_KINDS:
             N = rng.choice([2, 3, 3, 4])
-            real = not kind.endswith('complex128') and not kind.endswith('complex64')
+            real = not is_complex_kind(kind)
             integer = kind.startswith('int')
             one, two = herm_tensors(rng, N, not real, rng.choice([0.3, 1.0]), integer)
             const = rng.choice([0.0, 1.5, 0.5 - 0.25j, 2j])
@@ -709,6 +725,39 @@ def stream_hardening(ctx):
         if ok:
             b.add('bravyi_kitaev(non-Hermitian InteractionOperator)', case, qenc(Q),
                   {'op': 'c05.iop', 'N': N, 'n': N + 1, 'constant': to_gq(0.5j), 'one': flat(one), 'two': flat(two)})
+    b.flush()
+
+    # ---- (T)(A) complex four-distinct-mode entries in every complex dtype (complex64 / clongdouble scalars are not
+    #      Python complex); Hermitian operators whose STORAGE is not Hermitian element by element
+    for rep in range(2 * reps):
+        for ki, kind in enumerate(COMPLEX_KINDS + ['float64', 'float32']):
+            N = rng.choice([4, 5, 5, 6])
+            storage = QUARTIC_STORAGE[(rep + ki) % len(QUARTIC_STORAGE)]
+            one, two = quartic_tensors(rng, N, is_complex_kind(kind), storage)
+            const = rng.choice([0.0, 1.5, 0.5 - 0.25j])
+            c1, c2 = cast(one, kind), cast(two, kind)
+            s1, s2 = c1.copy(), c2.copy()
+            nq = N + rng.choice([0, 1, 2])
+            ok, iop = soft(st, 'InteractionOperator:' + kind, lambda: of.InteractionOperator(const, c1, c2))
+            if not ok:
+                continue
+            j1, j2, jc = flat(iop.one_body_tensor), flat(iop.two_body_tensor), to_gq(const)
+            case = {'fn': 'bravyi_kitaev', 'n_qubits': nq, 'array_type': kind, 'storage': storage,
+                    'interaction_operator': {'N': N, 'constant': jc, 'one': j1, 'two': j2}}
+            st.case(case)
+            ok, Q = soft(st, 'bk(InteractionOperator):' + kind, lambda: BK(iop, nq))
+            if not ok:
+                continue
+            st.count('quartic-entry:%s:%s' % (kind, storage))
+            st.count('storage:' + ('elementwise-hermitian' if elementwise_hermitian(s2) else 'non-canonical'))
+            b.add('bravyi_kitaev(InteractionOperator[%s], %s storage)' % (kind, storage), case, qenc(Q),
+                  {'op': 'c05.iop', 'N': N, 'n': nq, 'constant': jc, 'one': j1, 'two': j2},
+                  oracle('bk', 'fermion', nq, ['op', sparse_spec_op(const, s1, s2)], qenc(Q)))
+            ok, QF = soft(st, 'bk(get_fermion_operator(iop)):' + kind,
+                          lambda: BK(of.transforms.get_fermion_operator(iop), nq))
+            if ok and canon_nz(qenc(Q)) != canon_nz(qenc(QF)):
+                st.violate('InteractionOperator path differs from the FermionOperator path (%s, %s storage)'
+                           % (kind, storage), case, {'fast': qenc(Q), 'fermion_path': qenc(QF)})
     b.flush()
 
     # ---- (B) small entries next to O(1) ones; n_qubits 9..20 and > 256
